@@ -314,7 +314,7 @@ func (e *env) flags() []imap.Flag {
 	return o
 }
 
-var boxNames = []string{"INBOX", "Work", "Lists/go-imap", "Entwürfe", "日本語", "with space", "R&D", "a\"q\\b", "ctl\x01"}
+var boxNames = []string{"INBOX", "Inboxes", "inbox/sub", "Work", "Lists/go-imap", "Entwürfe", "日本語", "with space", "R&D", "a\"q\\b", "ctl\x01"}
 
 // ---- normalisation (what the wire format can carry) ----------------------------------
 
